@@ -107,6 +107,25 @@ func lockChild(en *Env) {
 				results[i] = strings.ReplaceAll(results[i], " ", "_")
 			}
 			fmt.Fprintf(out, "res %s\n", strings.Join(results, " "))
+		case "work":
+			// work <slot> <n>: the holder uses its database - a few writes and a Merge (none of which may let go of the lock)
+			slot, _ := strconv.Atoi(f[1])
+			name := "notopen"
+			if db := slots[slot]; db != nil {
+				name = h.Guard(h.CallTimeout, func() error {
+					for i := 0; i < 12; i++ {
+						if err := db.Put([]byte(fmt.Sprintf("key%d", i%5)), []byte(fmt.Sprintf("w-%s-%d", f[2], i))); err != nil {
+							return err
+						}
+					}
+					db.Delete([]byte("key1"))
+					if err := db.Merge(); err != nil {
+						return err
+					}
+					return db.Sync()
+				})
+			}
+			fmt.Fprintf(out, "res %s\n", strings.ReplaceAll(name, " ", "_"))
 		case "closepark":
 			// closepark <slot>: Close runs on its own goroutine and is parked (blocking I/O hook) at the entry of the
 			// close of its first data file, i.e. in the middle of Close; answers "parked", or the result if Close
@@ -230,8 +249,8 @@ func profDirLock(en *Env) {
 		dir := en.FreshDir()
 		fresh := rd%3 == 0
 		corrupt := false
-		var dataFile string
-		var orig []byte
+		var dataFile, dmgFile string
+		var orig, dmgOrig []byte
 		if !fresh {
 			// an existing directory with some data
 			o := kv.DefaultOptions
@@ -311,6 +330,23 @@ func profDirLock(en *Env) {
 					open[o] = true
 				}
 				attempts++
+			case x < 56 && open[o]:
+				kids[p].send("work %d %d", g, s)
+				res := kids[p].recv()
+				en.T.Emit(h.Ev{"ev": "lk", "o": o, "act": "work", "res": res, "same": true})
+				// and right away an attempt by another process: the directory is still in use
+				p2 := (p + 1 + r.Intn(len(kids)-1)) % len(kids)
+				o2 := (p2+1)*10 + g
+				if !open[o2] {
+					before := fingerprint(dir)
+					kids[p2].send("open %d %s", g, dir)
+					res2 := kids[p2].recv()
+					en.T.Emit(h.Ev{"ev": "lk", "o": o2, "act": "open", "res": res2, "same": before == fingerprint(dir)})
+					attempts++
+					if res2 == "ok" {
+						open[o2] = true
+					}
+				}
 			case x < 62 && open[o]:
 				// an Open from another process while this opener is in the middle of its Close (parked at the close
 				// of its first data file): the database is open until Close returns
@@ -348,24 +384,40 @@ func profDirLock(en *Env) {
 				// its three loading phases (DirLock.tla): listing the names, opening the files, reading the records
 				corrupt = !corrupt
 				stray := filepath.Join(dir, "backup.data")    // a data-file suffix without a numeric id
-				asDir := filepath.Join(dir, "000000007.data") // a data file that cannot be opened (it is a directory)
+				asDir := filepath.Join(dir, "000000099.data") // a data file that cannot be opened (it is a directory)
 				os.Remove(stray)
 				os.Remove(asDir)
-				b := append([]byte(nil), orig...)
 				kind := "no"
 				if corrupt {
 					kind = []string{"index", "names", "files"}[nkind%3]
 					nkind++
 					switch kind {
 					case "index":
-						b[10] ^= 0x55
+						// (a finished merge left by the holder's work would replace the damaged file at the next
+						// Open: it is discarded first; the oldest data file as it is now gets one byte flipped)
+						os.RemoveAll(h.MergePath(dir))
+						dmgFile, dmgOrig = "", nil
+						if ids := h.DataFileIDs(dir); len(ids) > 0 {
+							dmgFile = filepath.Join(dir, fmt.Sprintf("%09d.data", ids[0]))
+							dmgOrig, _ = os.ReadFile(dmgFile)
+						}
+						if len(dmgOrig) > 20 {
+							b := append([]byte(nil), dmgOrig...)
+							b[10] ^= 0x55
+							os.WriteFile(dmgFile, b, 0644)
+						} else {
+							os.WriteFile(stray, []byte("x"), 0644) // nothing to flip: damage the names instead
+							kind = "names"
+						}
 					case "names":
 						os.WriteFile(stray, []byte("x"), 0644)
 					case "files":
 						os.Mkdir(asDir, 0755)
 					}
+				} else if dmgFile != "" && dmgOrig != nil {
+					os.WriteFile(dmgFile, dmgOrig, 0644) // repaired: exactly the bytes the file had when it was damaged
+					dmgFile, dmgOrig = "", nil
 				}
-				os.WriteFile(dataFile, b, 0644)
 				en.T.Emit(h.Ev{"ev": "setdir", "corrupt": corrupt, "kind": kind})
 				// an Open right away (it must fail on a damaged directory and succeed on a repaired one), then one
 				// by another process: a lock leaked by the failed Open of the first shows as "inuse" here
